@@ -193,6 +193,12 @@ func (r RawSuite) Validate() error {
 }
 
 func parseRawSuite(raw string) (SuiteConfig, error) {
+	for i := 0; i < len(raw); i++ {
+		if raw[i] >= 0x80 {
+			// non-ASCII letters such as U+017F must not be case-folded into the suite keywords
+			return SuiteConfig{}, fmt.Errorf("invalid OCRA suite format: %q", raw)
+		}
+	}
 	parts := strings.Split(raw, ":")
 	if len(parts) != 3 {
 		return SuiteConfig{}, fmt.Errorf("invalid OCRA suite format: %q", raw)
